@@ -162,6 +162,8 @@ def main():
             known_hit.append(v["key"])
             continue
         n_viol += 1
+        if n_viol > 5:
+            continue        # at most five VIOLATION lines per run; the rest are counted in the evidence file
         rp = {"property": prop, "key": v["key"], "what": v["what"], "tier": tier, "seed": seed, **v["replay"]}
         path = common.VERIF / "replays" / f"{prop}-{common.short_hash(rp)}.json"
         common.write_json(path, rp)
